@@ -401,11 +401,15 @@ def dict_keys(d: SV) -> SV:
 class SpecDef:
     """A defined function symbol F(formals) = body, unfolded on demand at ground instances."""
 
-    def __init__(self, decl, formals, body):
-        self.decl, self.formals, self.body = decl, formals, body
+    def __init__(self, decl, formals, body, side=()):
+        self.decl, self.formals, self.body, self.side = decl, formals, body, list(side)
 
     def instance(self, actuals):
-        return self.decl(*actuals) == z3.substitute(self.body, *zip(self.formals, actuals))
+        sub = list(zip(self.formals, actuals))
+        d = self.decl(*actuals) == z3.substitute(self.body, *sub)
+        if self.side:
+            return z3.And(d, *[z3.substitute(f, *sub) for f in self.side])
+        return d
 
 
 SPEC_DEFS: dict[str, SpecDef] = {}
@@ -457,6 +461,9 @@ def unfold(formulas: list, depth: int = 2, limit: int = 400) -> list:
 COMMUTATIVE: set[str] = set()  # names of binary function symbols assumed commutative
 
 
+TERM_AXIOMS: dict = {}  # function symbol name -> callable(app) -> list of (assumed) ground facts about that term
+
+
 def commutativity_instances(formulas: list) -> list:
     out, seen = [], set()
     stack = list(formulas)
@@ -471,6 +478,9 @@ def commutativity_instances(formulas: list) -> list:
                 a, b = x.children()
                 if a.get_id() != b.get_id():
                     out.append(x == x.decl()(b, a))
+            h = TERM_AXIOMS.get(x.decl().name()) if x.num_args() > 0 else None
+            if h is not None:
+                out.extend(h(x))
             stack.extend(x.children())
         elif z3.is_quantifier(x):
             stack.append(x.body())
